@@ -167,3 +167,44 @@ func verif_harness_C07_roundtrip_forms() {
 	var extra Result
 	verif_assert(dec.Decode(&extra) == io.EOF, "C07.forms.end-of-stream")
 }
+
+// C07 (every field) — the fields of Result are enumerated from the type itself
+// (go/types, on every run), each set to a value that is non-zero and differs
+// per field and per record; two such records go through the CSV and the JSON
+// codec (real encoding/csv, base64, jwriter, jlexer) and must come back
+// structurally equal — compared by the engine field by field, not by
+// Result.Equal, so a field the type gains later is covered without anybody
+// remembering to extend Equal or this harness. (gob: see the gob harness.)
+//
+//verif:harness unwind=64 replay=none
+func verif_harness_C07_every_field_round_trips() {
+	if !verif_is_symbolic_run() {
+		return
+	}
+	csvFormat := verif_choose("format", 2) == 0
+	var sent [2]Result
+	verif_fill(&sent[0], 1)
+	verif_fill(&sent[1], 2)
+	var buf bytes.Buffer
+	var enc Encoder
+	if csvFormat {
+		enc = NewCSVEncoder(&buf)
+	} else {
+		enc = NewJSONEncoder(&buf)
+	}
+	for k := range sent {
+		verif_assert(enc.Encode(&sent[k]) == nil, "C07.fields.encode-no-error")
+	}
+	var dec Decoder
+	if csvFormat {
+		dec = NewCSVDecoder(bytes.NewReader(buf.Bytes()))
+	} else {
+		dec = NewJSONDecoder(bytes.NewReader(buf.Bytes()))
+	}
+	for k := range sent {
+		var got Result
+		verif_assert(dec.Decode(&got) == nil, "C07.fields.decode-no-error")
+		verif_assert(verif_deep_equal(got, sent[k]), "C07.fields.every-field-of-the-type-round-trips")
+	}
+	verif_assert(!verif_deep_equal(sent[0], sent[1]), "C07.fields.the-two-records-differ")
+}
